@@ -98,7 +98,15 @@ type field struct {
 }
 
 func wireLayout(b []byte, spec codecSpec, base int) []field {
-	var fs []field
+	fs, _ := wireLayoutClaim(b, spec, base)
+	return fs
+}
+
+// wireLayoutClaim also reports the first series whose length field claims more data
+// than the message contains ("" if none). The round-trip layers decode in this process:
+// they refuse to hand such an encoding to the real decoder, which sizes its buffers from
+// those fields (see the hostile layer), and report it as a failed round trip instead.
+func wireLayoutClaim(b []byte, spec codecSpec, base int) (fs []field, overclaim string) {
 	off := base
 	add := func(name string, size int) bool {
 		if off+size > len(b) {
@@ -109,12 +117,12 @@ func wireLayout(b []byte, spec codecSpec, base int) []field {
 		return true
 	}
 	if !add("flags", 1) {
-		return fs
+		return fs, ""
 	}
 	fl := b[base]
 	allPresent, trZero, eqTR, eqLen, eqAl, zeroAl := fl&1 != 0, fl&2 != 0, fl&4 != 0, fl&8 != 0, fl&16 != 0, fl&32 != 0
 	if !add("seq", 4) {
-		return fs
+		return fs, ""
 	}
 	var dataLen uint32
 	if eqLen {
@@ -122,14 +130,14 @@ func wireLayout(b []byte, spec codecSpec, base int) []field {
 			dataLen = binary.LittleEndian.Uint32(b[off:])
 		}
 		if !add("len", 4) {
-			return fs
+			return fs, ""
 		}
 	}
 	if eqTR && !trZero && !add("tr", 16) {
-		return fs
+		return fs, ""
 	}
 	if eqAl && !zeroAl && !add("align", 8) {
-		return fs
+		return fs, ""
 	}
 	sorted := append([]uint32{}, spec.Keys...)
 	sort.Slice(sorted, func(i, j int) bool { return sorted[i] < sorted[j] })
@@ -150,9 +158,11 @@ func wireLayout(b []byte, spec codecSpec, base int) []field {
 		if !telem.DataType(dt).IsVariable() {
 			size = int(l) * densityOf(dt)
 		}
-		if size < 0 || !add("data", size) {
+		if size < 0 || off+size > len(b) {
+			overclaim = fmt.Sprintf("series of key %d at offset %d claims %d data bytes but only %d bytes follow", k, off, size, len(b)-off)
 			return false
 		}
+		add("data", size)
 		if !eqTR && !add("tr", 16) {
 			return false
 		}
@@ -167,7 +177,7 @@ func wireLayout(b []byte, spec codecSpec, base int) []field {
 				break
 			}
 		}
-		return fs
+		return fs, overclaim
 	}
 	for off+4 <= len(b) {
 		k := binary.LittleEndian.Uint32(b[off:])
@@ -176,7 +186,7 @@ func wireLayout(b []byte, spec codecSpec, base int) []field {
 			break
 		}
 	}
-	return fs
+	return fs, overclaim
 }
 
 // ---------------------------------------------------------------------------------
